@@ -899,6 +899,10 @@ package flags
 //@   pure
 
 //@ pure func missingReq(o *Option) bool = o.Required && !o.isSet
+// how a missing option is named in the message (opaque inside quantifiers)
+//@ assumed func reqItem(o *Option) (s string)
+//@   pure
+//@ axiom manual reqItem_def: forall o *Option :: reqItem(o) == "`" + o.String() + "'"
 // j-th group (pre-order) of command c, and "some option of c's groups is required and unset"
 //@ pure func groupAt(c *Command, j int) *Group = iterelem(Group.eachGroup, c.Group, j, 0)
 //@ pure func noneMissingIn(c *Command, upto int) bool = forall(j, 0, upto, forall(i, 0, len(groupAt(c, j).options), !missingReq(groupAt(c, j).options[i])))
@@ -921,8 +925,12 @@ package flags
 //@   loop 2 invariant len(required) == 0 ==> forall(k, 0, cnt_1, noneMissingIn(activeAt(root, k), iterlen(Group.eachGroup, activeAt(root, k).Group))) && noneMissingIn(c, idx_2)
 //@   loop 3 invariant forall(i, 0, len(required), required[i] != nil && missingReq(required[i]))
 //@   loop 3 invariant len(required) == 0 ==> forall(k, 0, cnt_1, noneMissingIn(activeAt(root, k), iterlen(Group.eachGroup, activeAt(root, k).Group))) && noneMissingIn(c, idx_2) && forall(i, 0, idx_3, !missingReq(g.options[i]))
+// (the converse, pointwise: whatever is reported as missing is a required, unset option of a group of the active chain)
+//@   at[C06] call append #1: missingReq(option) && option == g.options[idx_3] && g == groupAt(c, idx_2) && c == activeAt(root, cnt_1) && cnt_1 < chainLen(root)
 //@   loop 4 invariant[C06,C10] (len(reqnames) > 0) == exists(i, 0, idx_4, unmet(p, p.positional[i]))
-//@   loop 5 invariant len(names) == idx_5
+//@   loop 5 invariant[C06] len(names) == idx_5 && forall(i, 0, idx_5, names[i] == reqItem(required[i]))
+//@   at[C06] call append #6: use(reqItem_def, k)
+//@   at[C06] call strings.Join #2: len(names) == len(required) && forall(i, 0, len(names), exists(j, 0, len(required), names[i] == reqItem(required[j]))) && forall(j, 0, len(required), exists(i, 0, len(names), names[i] == reqItem(required[j])))
 //@   at[C15] call strings.Join #2: forall(a, 0, len(names), forall(b, a, len(names), names[a] <= names[b]))
 //@   ensures[C06] err != nil ==> isTyped(err, ErrRequired) && p.err == err
 //@   ensures[C06] err == nil ==> p.err == old(p.err)
